@@ -12,6 +12,8 @@ SESSIONS = [
     (CHURN + ";;(define v (vector (vector 1 2) (list 3 4)));;(churn 20);;(vector-ref (vector-ref v 0) 1)", 'OK 2', 'nested vectors survive collections'),
     (CHURN + ";;(define k #f);;(define (f n) (let ((m (* n 2))) (+ m (call/cc (lambda (c) (set! k c) 1)))));;(f 10);;(churn 20);;(define once #t);;(let ((r (k 5))) r)", None, 'a stored continuation survives collections'),
     (CHURN + ";;(define lst (mk 50 '()));;(churn 20);;(length lst)", 'OK 50', 'a global list survives collections'),
+    (CHURN + ";;(define (adder n) (lambda (x) (+ x n)));;(define v2 (vector (mk 5 '()) (adder 10) (vector (mk 3 '()))));;(churn 20);;(+ (length (vector-ref v2 0)) ((vector-ref v2 1) 1) (length (vector-ref (vector-ref v2 2) 0)))", 'OK 19', 'lists, closures and nested vectors held only by a vector survive collections'),
+    (CHURN + ";;(define (adder n) (lambda (x) (+ x n)));;(define a1 (adder 1));;(define a2 (adder 1000));;(churn 20);;(+ (a1 1) (a2 1))", 'OK 1003', 'two closures of one lambda keep their own environments'),
     (CHURN + ";;(define (deep n) (if (= n 0) (churn 8) (+ 1 (deep (- n 1)))));;(deep 200)", 'OK 200', 'stack-held frames survive collections in the middle of a recursion'),
     (CHURN + ";;(define z (cons (cons 1 2) (cons 3 4)));;(churn 20);;(car (car z))", 'OK 1', 'pairs reachable from a global survive'),
 ]
